@@ -47,6 +47,9 @@ func main() {
 	theSink = newSink()
 	if !raceMode {
 		process.VerifSink = theSink
+	} else {
+		// installed once, before any process exists: stragglers of earlier jobs keep reading it
+		process.VerifSink = &raceSink{profile: []string{"gosched", "sleep", "none"}[os.Getpid()%3]}
 	}
 	process.VerifTcSink = tcs
 	in := bufio.NewReaderSize(os.Stdin, 1<<20)
@@ -328,7 +331,6 @@ func doRun(j *sup.Job, res *sup.Result) {
 	}
 
 	if raceMode {
-		process.VerifSink = &raceSink{profile: j.Profile, seed: j.Seed}
 		runRace(j, res, rr, re, cancel, procs)
 		return
 	}
